@@ -986,3 +986,30 @@ Proof.
   - rewrite (to_wire_nopt m o ms rp false pad EO) in H.
     exact (rerender_identical_lemma o m ms rp w m' OO WF (WT m NT) H HF).
 Qed.
+
+(* ---------- refuted strengthenings (the known findings, as theorems) ---------- *)
+(* C08-reserve-valueerror: when the reserved OPT (+TSIG) octets alone exceed the limit, Renderer.reserve raises
+   ValueError: neither TooBig nor a truncated message, even with prefer_truncation *)
+Definition big_opt_msg : msg :=
+  mkMsg 1 0 [mkRR [[97]; []] 1 1 0 None 0 []] [] [] [] (Some (mkOpt 0 1232 [(65001, repeat 0 600)])) None.
+
+Lemma toobig_or_truncated_refuted_lemma :
+  exists m, to_wire m None 512 0 true 0 = Internal iValueError /\ to_wire m None 512 0 false 0 = Internal iValueError /\
+            exists w, to_wire m None 65535 0 false 0 = Ok w.
+Proof. exists big_opt_msg. split; [vm_compute; reflexivity|]. split; [vm_compute; reflexivity|]. eexists. vm_compute. reflexivity. Qed.
+
+(* C03-update-meta-class-spelling: an update whose empty prerequisite is spelled (class ANY, deleting = None), as
+   UpdateMessage.present(name) builds it, renders to the octets of the normal form (zone class, deleting = ANY);
+   the reader returns the normal form, which is not the message that was rendered *)
+Definition meta_spelled_update : msg :=
+  mkMsg 8 10240 [mkRR [[101; 120]; []] 1 6 0 None 0 []]
+        [mkRR [[97]; [101; 120]; []] 255 255 0 None 0 []] [] [] None None.
+
+Lemma update_meta_spelling_refuted_lemma :
+  exists m w m', to_wire m None 0 0 false 0 = Ok w /\ from_wire w None po0 = Ok m' /\
+                 map rclass (man m') <> map rclass (man m) /\ to_wire m' None 0 0 false 0 = Ok w.
+Proof.
+  exists meta_spelled_update. eexists. eexists. split; [vm_compute; reflexivity|]. split; [vm_compute; reflexivity|].
+  split; [vm_compute; discriminate|vm_compute; reflexivity].
+Qed.
+
